@@ -62,6 +62,9 @@ pub enum Case {
         #[serde(default)]
         fault: Option<(u64, u8)>,
     },
+    /// the matrix routine instantiated with a scalar NARROWER than f64 (range and
+    /// precision of f32): constants flush to zero, pivot products underflow early
+    DirectNarrow { mat: MatCase, tol: Option<u64> },
     Sample {
         spec: GraphSpec,
         point: Vec<u64>,
@@ -450,6 +453,10 @@ pub fn run_case(case: &Case) -> CaseResult {
             }
             CaseResult { violations, outcome, fired: st.fired }
         }
+        Case::DirectNarrow { mat, tol } => {
+            let (violations, outcome) = run_narrow(mat, *tol);
+            CaseResult { violations, outcome, fired: vec![] }
+        }
         Case::DirectWide { mat, tol, fault } => {
             let (violations, outcome) = run_wide(mat, *tol, *fault);
             let fired = fault.map(|(at, j)| vec![(at, FaultKind::Perturb(j), kind::MUL)]).unwrap_or_default();
@@ -692,6 +699,100 @@ fn run_wide(m: &MatCase, tol: Option<u64>, fault: Option<(u64, u8)>) -> (Vec<V16
     }
 }
 
+/// the routine with the f32-range scalar; (determinant, inverse) or the error name
+fn narrow_decompose(m: &MatCase, tol: Option<u64>) -> Result<(f32, Vec<f32>), String> {
+    use crate::simf32::F32;
+    let mut sm = SquareMatrix::new_zeros_from_num(&F32(0.0), m.dim);
+    for i in 0..m.dim {
+        for j in 0..m.dim {
+            sm[(i, j)] = F32(f64::from_bits(m.entries[i * m.dim + j]) as f32);
+        }
+    }
+    let settings = TropicalSamplingSettings {
+        matrix_stability_test: tol.map(f64::from_bits),
+        print_debug_info: false,
+        return_metadata: false,
+        ..Default::default()
+    };
+    match catch_unwind(AssertUnwindSafe(|| sm.decompose_for_tropical(&settings))) {
+        Err(_) => Err("panicked".into()),
+        Ok(Err(e)) => Err(format!("{:?}", e)),
+        Ok(Ok(d)) => {
+            let n = m.dim;
+            let mut inv = Vec::with_capacity(n * n);
+            for i in 0..n {
+                for j in 0..n {
+                    inv.push(d.inverse[(i, j)].0);
+                }
+            }
+            Ok((d.determinant.0, inv))
+        }
+    }
+}
+
+fn run_narrow(m: &MatCase, tol: Option<u64>) -> (Vec<V16>, &'static str) {
+    match narrow_decompose(m, tol) {
+        Err(e) => {
+            let mut v = Vec::new();
+            let outcome = if e.contains("ZeroDet") {
+                "zerodet"
+            } else if e.contains("Unstable") {
+                "unstable"
+            } else {
+                "panicked"
+            };
+            if tol.is_some() && outcome == "unstable" {
+                if let Err(e0) = narrow_decompose(m, None) {
+                    if e0.contains("ZeroDet") {
+                        v.push(V16 {
+                            class: "zero-pivot-product-not-reported-as-zerodet".into(),
+                            what: format!("f32-range scalar: ZeroDet without the stability test, Unstable with Some({:?})", tol.map(f64::from_bits)),
+                        });
+                    }
+                }
+            }
+            (v, outcome)
+        }
+        Ok((det, inv)) => {
+            let mut v = Vec::new();
+            if det == 0.0 {
+                v.push(V16 { class: "ok-with-zero-determinant".into(), what: "Ok returned with determinant 0 (f32-range scalar)".into() });
+            }
+            if let Some(tb) = tol {
+                let t = f64::from_bits(tb);
+                let n = m.dim;
+                let inv64: Vec<u64> = inv.iter().map(|x| (*x as f64).to_bits()).collect();
+                let mat64: Vec<u64> = m.entries.iter().map(|b| ((f64::from_bits(*b) as f32) as f64).to_bits()).collect();
+                if inv.iter().any(|x| x.is_nan()) || det.is_nan() {
+                    v.push(V16 { class: "ok-with-nan-in-decomposition".into(), what: format!("Some({:?}) but the Ok decomposition contains NaN (f32-range scalar)", t) });
+                } else if t.is_nan() || ((t as f32) as f64) < 0.0 {
+                    // the tolerance reaches the comparison through from_f64: it is the
+                    // tolerance AS THE SCALAR TYPE SEES IT that counts (-5e-324 is -0.0
+                    // in f32, which an exactly zero distance meets)
+                    v.push(V16 { class: "ok-although-distance-not-at-most-tolerance".into(), what: format!("tolerance {:?} can never be met, yet Ok (f32-range scalar)", t) });
+                } else if inv.iter().any(|x| !x.is_finite()) {
+                    if (t as f32).is_finite() {
+                        v.push(V16 { class: "ok-although-distance-not-at-most-tolerance".into(), what: "non-finite inverse with finite tolerance, yet Ok (f32-range scalar)".into() });
+                    }
+                } else if let Some(dist) = exact::l21_distance_exact(&inv64, &mat64, n) {
+                    // the library evaluated the norm in f32: unit round-off 2^-24; the
+                    // tolerance itself was rounded to f32
+                    let slack = 8.0 * n as f64 * 2f64.powi(-24) * exact::abs_product_norm(&inv64, &mat64, n);
+                    let t32 = (t as f32) as f64;
+                    let bound = t.max(t32) * (1.0 + 1e-6) + slack + f32::MIN_POSITIVE as f64;
+                    if !(dist <= bound) {
+                        v.push(V16 {
+                            class: "ok-although-distance-not-at-most-tolerance".into(),
+                            what: format!("f32-range scalar: exact L21 distance {:e}, tolerance {:e}, rounding slack {:e}, yet Ok", dist, t, slack),
+                        });
+                    }
+                }
+            }
+            (v, "ok")
+        }
+    }
+}
+
 // ------------------------------------------------------------------ property
 
 pub struct C16;
@@ -704,6 +805,7 @@ pub fn full_class(case: &Case, base: &str) -> String {
         Case::Direct { faults, .. } => ("direct", faults),
         Case::DirectWide { fault: None, .. } => ("direct-wide-scalar", &none),
         Case::DirectWide { fault: Some(_), .. } => ("direct-wide-scalar", &some),
+        Case::DirectNarrow { .. } => ("direct-narrow-scalar", &none),
         Case::Sample { faults, .. } => ("sample", faults),
     };
     format!("{}:{}:{}", base, leg, if faults.is_empty() { "natural" } else { "injected-fault" })
@@ -726,6 +828,13 @@ fn case_key(case: &Case, class: &str) -> String {
             hash_u64s(&mat.entries),
             tol.map(|t| format!("{:?}", f64::from_bits(t))).unwrap_or("none".into()),
             fault
+        ),
+        Case::DirectNarrow { mat, tol } => format!(
+            "C16:direct-narrow-scalar:{}:dim={}:mat={:016x}:tol={}",
+            class,
+            mat.dim,
+            hash_u64s(&mat.entries),
+            tol.map(|t| format!("{:?}", f64::from_bits(t))).unwrap_or("none".into())
         ),
         Case::Sample { spec, point, tol, faults, .. } => format!(
             "C16:sample:{}:graph={:016x}:point={:016x}:tol={}:faults={}",
@@ -754,6 +863,11 @@ fn nontrivial_key(case: &Case, fired: &[(u64, FaultKind, u8)], outcome: &str) ->
             if let Some((at, j)) = fault {
                 h = mix(mix(h, *at), *j as u64);
             }
+        }
+        Case::DirectNarrow { mat, tol } => {
+            h = mix(h, 0xf32);
+            h = mix(h, hash_u64s(&mat.entries));
+            h = mix(h, tol.unwrap_or(1));
         }
         Case::Sample { spec, point, tol, meta, .. } => {
             h = mix(h, hash_str(&serde_json::to_string(spec).unwrap()));
@@ -784,6 +898,10 @@ fn record(res: &mut OneResult, case: &Case, cr: &CaseResult) {
             res.add("wide_scalar_cases", 1);
             res.add(&format!("dim_{}", mat.dim), 1);
         }
+        Case::DirectNarrow { mat, .. } => {
+            res.add("narrow_scalar_cases", 1);
+            res.add(&format!("dim_{}", mat.dim), 1);
+        }
         Case::Sample { .. } => res.add("sample_cases", 1),
     }
     for (_, k, _) in &cr.fired {
@@ -796,7 +914,7 @@ fn record(res: &mut OneResult, case: &Case, cr: &CaseResult) {
         "panicked" => res.add("probe_panicked", 1),
         _ => {}
     }
-    let fault_free = matches!(case, Case::DirectWide { .. })
+    let fault_free = matches!(case, Case::DirectWide { .. } | Case::DirectNarrow { .. })
         || matches!(case, Case::Direct { faults, .. } | Case::Sample { faults, .. } if faults.is_empty());
     if !cr.fired.is_empty() || (fault_free && cr.outcome != "ok") || fault_free {
         res.nontrivial.push(nontrivial_key(case, &cr.fired, cr.outcome));
@@ -856,6 +974,21 @@ impl C16 {
                 }
             }
             return (cases, Some(json!({"leg": "direct-wide-scalar (double-double)", "matrices": summary})));
+        }
+        if index % 8 == 1 {
+            // narrow-scalar leg: the same routine instantiated with an f32-range type
+            // (fault-free; every tolerance; matrices whose entries survive the
+            // conversion as finite numbers)
+            for _ in 0..(if thorough { 24 } else { 12 }) {
+                let mat = gen_matrix(&mut rng, 6);
+                if mat.entries.iter().any(|b| !(f64::from_bits(*b) as f32).is_finite()) {
+                    continue;
+                }
+                for t in tolerances() {
+                    cases.push(Case::DirectNarrow { mat: mat.clone(), tol: t });
+                }
+            }
+            return (cases, Some(json!({"leg": "direct-narrow-scalar (f32 range and precision)"})));
         }
         if !sample_leg {
             let mat = if (index / 4) < fixed.len() as u64 && index % 4 == 0 {
@@ -1165,7 +1298,7 @@ impl Property for C16 {
             let mut progressed = false;
             let nfaults = match &case {
                 Case::Direct { faults, .. } | Case::Sample { faults, .. } => faults.len(),
-                Case::DirectWide { .. } => 0,
+                Case::DirectWide { .. } | Case::DirectNarrow { .. } => 0,
             };
             for i in 0..nfaults {
                 let mut c = case.clone();
@@ -1173,7 +1306,7 @@ impl Property for C16 {
                     Case::Direct { faults, .. } | Case::Sample { faults, .. } => {
                         faults.remove(i);
                     }
-                    Case::DirectWide { .. } => {}
+                    Case::DirectWide { .. } | Case::DirectNarrow { .. } => {}
                 }
                 if fails(&c) {
                     case = c;
@@ -1188,7 +1321,7 @@ impl Property for C16 {
         let no_faults: Vec<Fault> = Vec::new();
         let faults_now = match &case {
             Case::Direct { faults, .. } | Case::Sample { faults, .. } => faults.clone(),
-            Case::DirectWide { .. } => no_faults,
+            Case::DirectWide { .. } | Case::DirectNarrow { .. } => no_faults,
         };
         {
             let faults = &faults_now;
@@ -1202,7 +1335,7 @@ impl Property for C16 {
                     let mut c = case.clone();
                     match &mut c {
                         Case::Direct { faults, .. } | Case::Sample { faults, .. } => faults[0].at = k,
-                        Case::DirectWide { .. } => {}
+                        Case::DirectWide { .. } | Case::DirectNarrow { .. } => {}
                     }
                     if fails(&c) {
                         case = c;
